@@ -116,9 +116,12 @@ def gen_machine(rng, max_w=5, max_h=5, res=None, p_dead=0.3, p_exc=0.4,
         for _ in range(rng.randint(1, 3)):
             xy = (rng.randrange(w), rng.randrange(h))
             if xy not in dead:
-                exc[xy] = {r: rng.randint(0, q + (1 if rng.random() < .2
-                                                  else 0))
-                           for r, q in res.items()}
+                keys = list(res)
+                if rng.random() < .5:
+                    rng.shuffle(keys)       # same resources, other key order
+                exc[xy] = {r: rng.randint(0, res[r] + (1 if rng.random() < .2
+                                                       else 0))
+                           for r in keys}
     return dict(w=w, h=h, res=dict(res), exc=exc, dead_chips=sorted(dead),
                 dead_links=[])
 
